@@ -504,7 +504,7 @@ func init() {
 			res.Coverage["map_sites_reached"] = st.sites
 			res.Coverage["alphabet"] = "L1: every ophost message type (C16's alphabet) + time; L2: credited/refunded deposits, withdrawal, AddValidator ×3, RemoveValidator ×3, UpdateParams, UpdateOracle with three voters, RegisterPlan, NextBlock (real End/BeginBlocker)"
 			res.Coverage["oracle"] = "every transition of every explored state is executed twice on the same node, once on a second independently constructed node loaded with the parent's raw store content, and once per permutation (all n! for n ≤ 4) at every instrumented map-range site it reaches; response bytes, full error text, ordered events, gas, ordered validator updates and the digest of every store must be identical; census: no goroutine, select, channel operation, randomness, environment read or wall-clock use outside telemetry, every map range instrumented"
-			res.Assumptions = []string{"map iteration inside dependencies (connect's aggregator/median) is exercised only by Go's own per-range randomisation across the ≥3 executions of every transition, not exhaustively"}
+			res.Assumptions = []string{"the overlay instruments the map ranges of both OPinit modules and of connect's abci/strategies/aggregator, pkg/math/voteweighted and aggregator packages (the UpdateOracle path); map iteration in other dependencies is exercised only by Go's own per-range randomisation across the ≥3 executions of every transition"}
 			res.Require(len(st.sites) > 0, "no instrumented map range was ever reached")
 			multi := false
 			for k := range st.sites {
